@@ -3,6 +3,8 @@ package server
 import (
 	"errors"
 	"io/fs"
+	"net/http"
+	"net/url"
 	"os"
 	"sync"
 	"sync/atomic"
@@ -172,5 +174,16 @@ func HarnessLitmusOsSentinels() {
 	vAssert(os.ErrNotExist != nil, "litmus: os.ErrNotExist is initialised")
 	vAssert(errors.Is(err, os.ErrNotExist), "litmus: errors.Is finds os.ErrNotExist through a PathError")
 	vAssert(errors.Is(err, fs.ErrNotExist), "litmus: os.ErrNotExist is io/fs's")
+	vCover(true, "ran")
+}
+
+// net/http's form parsing works although net/http's and mime's initializers are not run: FormValue on a form-encoded
+// POST reads the body and finds the value (the multipartByReader sentinel is non-nil, mime.ParseMediaType parses)
+func HarnessLitmusFormParse() {
+	body := &vChunkReader{chunks: [][]byte{[]byte("k=v&a=1")}}
+	req := &http.Request{Method: "POST", URL: &url.URL{Path: "/"}, Header: http.Header{}, Body: body}
+	req.Header.Set("Content-Type", "application/x-www-form-urlencoded; charset=utf-8")
+	vAssert(req.FormValue("k") == "v", "litmus: FormValue finds a value in a form-encoded body")
+	vAssert(body.i == 1, "litmus: form parsing read the body")
 	vCover(true, "ran")
 }
